@@ -470,6 +470,7 @@ func vInfixShape(op pAst.InfixOperator) int {
 @*/
 
 /*@ func (self *Compiler) compileExprInner
+    assert @list-literal-starts-from-a-fresh-list before for _, element := range node.Values { :: self.emitted(0).Opcode() == Opcode_Cloning_Push
     serves C01, C02, C09, C11, C15
     split node.Kind() in 0..24
     splitcond at 16 :: node.(ast.AnalyzedAssignExpression).Lhs.Kind() == ast.IdentExpressionKind
